@@ -38,6 +38,10 @@ OPS = [
     ['set', 'int', 'sec|x', 2, None],
     # titles that differ only in letter case are different titles (the context is not case-insensitive)
     ['addtsec', 'sec', 'T1'], ['rmtsec', 'sec', 'T1'], ['rmsec', 'sec=T1'], ['set', 'int', 'sec=T1|x', 6, None],
+    # by-option variants (cfg_opt_*)
+    ['optset', 'int', 'i', 9, 0], ['optset', 'int', 'il', 9, 1], ['optset', 'str', 'sl', 'w', 2], ['optset', 'str', 'i', 'x', 0], ['optset', 'int', 'i', 9, 1],
+    ['optsetmulti', 'il', ['1', '2', '3']], ['optsetmulti', 'il', ['1', 'zz']], ['optrmnsec', 'sec', 0], ['optrmnsec', 'sec', 9], ['optrmtsec', 'sec', 't2'],
+    ['optrmtsec', 'msec', 't1'], ['optsetcomment', 'il', 'noted'],
     # the new value aliases a value the option already stores
     ['selfstr', 's', 0, 0], ['selfstr', 'sl', 0, 1], ['selfstr', 'sl', 1, 2], ['selfstr', 'sl', 0, 0],
 ]
@@ -149,6 +153,8 @@ def judge(spec, events, death):
         oname = op[2] if op[0] == 'set' else op[1]
         if op[0] == 'selfstr':
             oname = op[1]
+        if op[0] == 'optset':
+            oname = op[2]
         if rc_of(r) != exp:
             v.bad('%s(%s):return' % (op[0], oname), 'start %s, after %s: %r returned %s, the store model says %s' % (
                 spec['start'], ops[:n], op, r['rc'], exp))
@@ -168,9 +174,12 @@ def judge(spec, events, death):
 
 def gen(tier, seed):
     n = len(OPS)
-    depth = 3 if tier == 'quick' else 4
-    for d in range(1, depth + 1):
+    for d in range(1, 4):
         for seq in itertools.product(range(n), repeat=d):
+            yield {'start': 'init', 'ops': list(seq)}
+    if tier != 'quick':
+        # depth 4 over the 64 core calls (the by-option / alias / case variants are covered to depth 3 above)
+        for seq in itertools.product(range(64), repeat=4):
             yield {'start': 'init', 'ops': list(seq)}
     pdepth = 2 if tier == 'quick' else 3
     for st in ('p1', 'p2', 'p3'):
@@ -189,5 +198,5 @@ def run(tier, seed, bindirs):
                        assumptions=['unspecified, executed but judging stops there: typed setter at an index beyond the list size, cfg_setmulti with several values on a scalar, '
                                     'cfg_addtsec on a section without MULTI|TITLE, cfg_setopt on lists',
                                     'the modified flag of *section* options is not compared (the statement does not say whether removal sets it)'],
-                       more={'exhaustive_part': 'all sequences up to depth %d from init, depth %d from 3 parsed states, over %d calls' % (
-                           3 if tier == 'quick' else 4, 2 if tier == 'quick' else 3, len(OPS))})
+                       more={'exhaustive_part': 'all sequences up to depth 3 from init%s, depth %d from 3 parsed states, over %d calls' % (
+                           '' if tier == 'quick' else ' and depth 4 over the 64 core calls', 2 if tier == 'quick' else 3, len(OPS))})
